@@ -4,6 +4,9 @@ namespace Dawn.Diff
 
 mutual
 theorem Val.beq_refl : ∀ a : Val, a.beq a = true
+  | .none => by simp [Val.beq]
+  | .bool _ => by simp [Val.beq]
+  | .int _ => by simp [Val.beq]
   | .str s => by simp [Val.beq]
   | .bytes s => by simp [Val.beq]
   | .tuple xs => by simp [Val.beq, Val.beqList_refl xs]
@@ -19,6 +22,9 @@ end
 
 mutual
 theorem Val.eq_of_beq : ∀ a b : Val, a.beq b = true → a = b
+  | .none, b => by cases b <;> simp [Val.beq]
+  | .bool _, b => by cases b <;> simp [Val.beq]
+  | .int _, b => by cases b <;> simp [Val.beq]
   | .str s, b => by cases b <;> simp [Val.beq]
   | .bytes s, b => by cases b <;> simp [Val.beq]
   | .tuple xs, b => by
@@ -145,6 +151,9 @@ theorem equalDepth_total (d : Nat) : ∀ (a b : Val), a.height ≤ d → ∃ r, 
   | succ d ih =>
     intro a b h
     cases a with
+    | none => cases b <;> simp [equalDepth]
+    | bool _ => cases b <;> simp [equalDepth]
+    | int _ => cases b <;> simp [equalDepth]
     | str s => cases b <;> simp [equalDepth]
     | bytes s => cases b <;> simp [equalDepth]
     | tuple xs =>
@@ -173,6 +182,9 @@ theorem equalDepth_total (d : Nat) : ∀ (a b : Val), a.height ≤ d → ∃ r, 
 mutual
 /-- no dict anywhere inside -/
 def Val.dictFree : Val → Bool
+  | .none => true
+  | .bool _ => true
+  | .int _ => true
   | .str _ => true
   | .bytes _ => true
   | .tuple xs => Val.dictFreeList xs
@@ -227,6 +239,9 @@ theorem equalDepth_dictFree (d : Nat) : ∀ (a b : Val), a.dictFree = true → a
   | succ d ih =>
     intro a b hf hh
     cases a with
+    | none => cases b <;> simp [equalDepth, Val.beq]
+    | bool _ => cases b <;> simp [equalDepth, Val.beq]
+    | int _ => cases b <;> simp [equalDepth, Val.beq]
     | str s => cases b <;> simp [equalDepth, Val.beq]
     | bytes s => cases b <;> simp [equalDepth, Val.beq]
     | dict kvs => simp [Val.dictFree] at hf
@@ -279,5 +294,8 @@ theorem elems_height {a : Val} {xs : List Val} (h : a.elems? = some xs) {x : Val
     subst h
     exact Or.inr ⟨rfl, by have := mem_heightList hx; simp only [Val.height]; omega⟩
   | dict kvs => simp [Val.elems?] at h
+  | none => simp [Val.elems?] at h
+  | bool _ => simp [Val.elems?] at h
+  | int _ => simp [Val.elems?] at h
 
 end Dawn.Diff
